@@ -852,10 +852,13 @@ pub async fn run_owners(plan: &Plan) -> Outcome {
 
 pub fn run(seed: u64, tier: &str, shard: usize, nshards: usize) -> ShardResult {
     let mut res = ShardResult::new("c09", seed);
-    let rt = tokio::runtime::Builder::new_multi_thread().worker_threads(4).enable_all().build().unwrap();
+    let mut rt = tokio::runtime::Builder::new_multi_thread().worker_threads(4).enable_all().build().unwrap();
     let total = if tier == "thorough" { 960 } else { 128 };
     let mut rng = Rng::derive(seed, 0xC09_000 + shard as u64);
     for i in 0..(total / nshards.max(1)).max(2) {
+        if i % 10 == 9 {
+            std::mem::replace(&mut rt, tokio::runtime::Builder::new_multi_thread().worker_threads(4).enable_all().build().unwrap()).shutdown_background();
+        }
         let conc = i % 3 == 2;
         let burst = i % 8 == 3;
         let plan = if burst { crate::c09burst::gen_plan(&mut rng) } else { gen_plan(&mut rng, tier, conc) };
